@@ -8,6 +8,7 @@ import (
 	"encoding/json"
 	"fmt"
 	"os"
+	"os/exec"
 	"path/filepath"
 	"sort"
 	"strings"
@@ -265,7 +266,12 @@ func c03WriteResume(models string, l c03Layer, rs *c03Resume) {
 func c03Run(bin, work string, c *c03Case, rep *kit.Report) (vs []c03Viol, inconclusive string) {
 	home := filepath.Join(work, fmt.Sprintf("c03-%d", c.Index))
 	os.RemoveAll(home)
-	defer os.RemoveAll(home)
+	defer func() {
+		if os.Getenv("VERIF_KEEP") != "" && len(vs) > 0 {
+			exec.Command("cp", "-a", home, os.Getenv("VERIF_KEEP")).Run()
+		}
+		os.RemoveAll(home)
+	}()
 	reg := NewFakeReg()
 	defer reg.Close()
 	c.finish(reg)
